@@ -81,7 +81,7 @@ func (c *MJDividerComponent) Render(w io.StringWriter) error {
 		AddStyle(constants.CSSWordBreak, "break-word")
 
 	// Handle container background color
-	containerBgAttr := c.Node.GetAttribute(constants.MJMLContainerBackgroundColor)
+	containerBgAttr := c.GetWrittenAttribute(constants.MJMLContainerBackgroundColor)
 	containerBg := c.GetAttributeFast(c, constants.MJMLContainerBackgroundColor)
 	if containerBgAttr != "" || containerBg != c.GetDefaultAttribute(constants.MJMLContainerBackgroundColor) {
 		td.AddStyle(constants.CSSBackground, containerBg)
